@@ -147,3 +147,30 @@ def run(ctx, rep):
     from props import storage_forms as sf_
     sf_.check_constructors(ctx, rep, 'R18.f', {'Partition': ('message_deduplicator',)})
 
+    # ------------------------------------------------------------ R18.g ids are re-learnt from the log itself, whatever is cached
+    rep.rule('R18.g', 'after a restart the id cache is rebuilt from the log file: Segment::load_message_ids has no successful return that does not pass the success edge of SegmentLogReader::load_message_ids_impl (the in-memory index is absent when index caching is off: it says nothing about what the log holds)', floor=1, analysis='A2')
+    LMI = 'server::streaming::segments::segment::Segment::load_message_ids'
+    if not ctx.has(LMI):
+        rep.anchor_lost('R18.g', LMI)
+    else:
+        lb_g = ctx.fn_body(LMI)
+        rd_ = [c for c in lb_g.calls if c.name.endswith('SegmentLogReader::load_message_ids_impl') and is_user_call(c)]
+        oks_g = strict_ok_exit_blocks(lb_g) | {b for b, k, _ in lb_g.return_sites() if k in ('value', 'tail')}
+        ok_g = bool(rd_) and not (oks_g & lb_g.reachable(0, avoid_blocks={rd_[0].bb}))
+        rep.ob('R18.g', LMI, 'every successful return read the log', ok_g, rd_[0].where() if rd_ else None, None if ok_g else
+               'load_message_ids can return successfully without reading the log file: the ids of stored messages are forgotten by the restart and a repeat is stored again')
+
+    # ------------------------------------------------------------ R18.h a batch of duplicates leaves the offset state alone
+    rep.rule('R18.h', 'a batch that deduplication empties changes nothing: in Partition::append_messages every assignment to current_offset / should_increment_offset lies behind the "no message left" early return (`messages_count == 0` is false there)', floor=2, analysis='A3 guard literals')
+    import forms as forms_h
+    from props import storage_forms as sf_h
+    ab_h = ctx.fn_body(sf_h.APPEND)
+    for fld in ('should_increment_offset', 'current_offset'):
+        for fn_, b2_, bb_, ln_, form_ in forms_h.field_assignments(ctx, sf_h.PART, fld):
+            if fn_ != sf_h.APPEND:
+                continue
+            lits_ = [(canon(e_, 0, 1), t_) for e_, t_, _ in bool_literals_at(b2_, bb_)]
+            ok_h = any(('(0 == ' in f_ or f_.endswith(' == 0)')) and (not t_) for f_, t_ in lits_) or any(('(0 != ' in f_ or f_.endswith(' != 0)') or '(0 < ' in f_) and t_ for f_, t_ in lits_)
+            rep.ob('R18.h', sf_h.APPEND, '%s = %s after the empty-batch return' % (fld, form_[:40]), ok_h, '%s:%s' % (b2_.file, ln_), None if ok_h else
+                   '`%s` is assigned before it is known that a message is left after deduplication: a batch of repeats moves the offset state although nothing is stored' % fld)
+
